@@ -231,3 +231,77 @@ def fam_equal_values():
             out.append((f"FEQ:{n_nodes}:{share}", ModelSpec('m', ops, nodes, edges,
                                                             note=f"equal parameter values across nodes={share}")))
     return out
+
+
+def fam_vectorization(seed=0, n=20, max_per_type=4):
+    """C04: 1-2 node types x 1..4 nodes per type, weight patterns dense / sparse / diagonal / fan-in from two types,
+    self connections, equal or distinct per-node parameters, optional edge template."""
+    rnd = random.Random(seed)
+    out = []
+    patterns = ['dense', 'sparse', 'diag', 'ring', 'fanin', 'random']
+    for k in range(n):
+        fp = FP()
+        ops = {'li': op_leaky(fp), 'o1': op_two_inputs(fp), 'rpo': op_rpo(fp)}
+        na = rnd.randint(1, max_per_type)
+        nb = rnd.randint(0, max_per_type)
+        equal = rnd.random() < 0.25
+        nodes = {}
+        for i in range(na):
+            nodes[f"a{i}"] = NodeSpec(['o1'], {('o1', 'x'): fp()} if equal else _node_overrides(fp, ops, ['o1']))
+        for i in range(nb):
+            nodes[f"b{i}"] = NodeSpec(['rpo'], {('rpo', 'a'): fp(), ('rpo', 'b'): fp()} if equal
+                                      else _node_overrides(fp, ops, ['rpo']))
+        pat = patterns[k % len(patterns)]
+        edges = []
+        A = [f"a{i}" for i in range(na)]
+        B = [f"b{i}" for i in range(nb)]
+        seen = set()
+
+        def add(s, t, w=None):
+            # at most one edge per (source node, target variable): the same-source-node defect is C01's finding
+            sn = s.rsplit('/', 2)[0]
+            if (sn, t) in seen:
+                return
+            seen.add((sn, t))
+            edges.append(EdgeSpec(s, t, fp() if w is None else w))
+        if pat == 'dense':
+            for s in A:
+                for t in A:
+                    add(f"{s}/o1/x", f"{t}/o1/u")
+        elif pat == 'sparse':
+            for s in A:
+                for t in A:
+                    if rnd.random() < 0.3:
+                        add(f"{s}/o1/x", f"{t}/o1/u")
+        elif pat == 'diag':
+            for s in A:
+                add(f"{s}/o1/x", f"{s}/o1/u")
+        elif pat == 'ring':
+            for i, s in enumerate(A):
+                add(f"{s}/o1/x", f"{A[(i + 1) % na]}/o1/w")
+        elif pat == 'fanin':
+            for t in A[:max(1, na // 2)]:
+                for s in A:
+                    add(f"{s}/o1/x", f"{t}/o1/u", F(3, 2) if rnd.random() < 0.3 else None)
+        else:
+            for s in A:
+                for t in A:
+                    if rnd.random() < 0.5:
+                        add(f"{s}/o1/x", f"{t}/o1/{rnd.choice('uw')}")
+        # cross-type edges
+        for s in B:
+            for t in A:
+                if rnd.random() < 0.5:
+                    add(f"{s}/rpo/a", f"{t}/o1/{rnd.choice('uw')}")
+        for s in A:
+            for t in B:
+                if rnd.random() < 0.5:
+                    add(f"{s}/o1/x", f"{t}/rpo/r_in")
+        for s in B:
+            for t in B:
+                if rnd.random() < 0.3:
+                    add(f"{s}/rpo/b", f"{t}/rpo/r_in")
+        out.append((f"FV:{seed}:{k}:{pat}:{na}+{nb}:eq={equal}",
+                    ModelSpec('m', ops, nodes, edges, note=f"vectorization pattern {pat}, {na} two-input nodes, {nb} rpo "
+                                                           f"nodes, equal params={equal}")))
+    return out
